@@ -8,7 +8,7 @@ from ..cfg import NORMAL, Node
 from ..core import Ctx
 from ..flow import ALL, find_path, names_in
 from ..model import AnalysisError, FunctionInfo, dotted, norm_text
-from .common import EnumVal, edge_target, kwarg, reachable_from, scenario_walk
+from .common import EnumVal, edge_target, kwarg, reachable_from, scenario_walk, str_consts
 
 EXPLANATION = (
     "Static analysis of the append path: (R1) writer/validator agreement - the schema-field keys CONSUMED where they decide "
@@ -310,10 +310,22 @@ def r4(ctx: Ctx) -> None:
         return any(g.nodes[x].kind == "raise" and g.nodes[x].raised == "ValueError" for x in reach)
 
     brs_all = [b for b in g.nodes if b.kind == "branch" and isinstance(b.ast, ast.Compare)]
+
+    def _tested_keys(b: Node) -> Set[str]:
+        """`'id' not in field` tests 'id'; `prop not in field` inside `for prop in ('id', 'name', 'type')` tests all three"""
+        left = b.ast.left  # type: ignore[union-attr]
+        if isinstance(left, ast.Constant) and isinstance(left.value, str):
+            return {left.value}
+        if isinstance(left, ast.Name):
+            for fr in b.frames:
+                if fr.kind == "loop" and isinstance(fr.node, ast.For) and isinstance(fr.node.target, ast.Name) and fr.node.target.id == left.id:
+                    return set(str_consts(ctx, f, fr.node.iter))
+        return set()
+
     roles = {
-        "missing 'id'": lambda b: isinstance(b.ast.ops[0], ast.NotIn) and isinstance(b.ast.left, ast.Constant) and b.ast.left.value == "id",
-        "missing 'name'": lambda b: isinstance(b.ast.ops[0], ast.NotIn) and isinstance(b.ast.left, ast.Constant) and b.ast.left.value == "name",
-        "missing 'type'": lambda b: isinstance(b.ast.ops[0], ast.NotIn) and isinstance(b.ast.left, ast.Constant) and b.ast.left.value == "type",
+        "missing 'id'": lambda b: isinstance(b.ast.ops[0], ast.NotIn) and "id" in _tested_keys(b),
+        "missing 'name'": lambda b: isinstance(b.ast.ops[0], ast.NotIn) and "name" in _tested_keys(b),
+        "missing 'type'": lambda b: isinstance(b.ast.ops[0], ast.NotIn) and "type" in _tested_keys(b),
         "duplicate id": lambda b: isinstance(b.ast.ops[0], ast.In) and _src_key(b) == "id",
         "duplicate name": lambda b: isinstance(b.ast.ops[0], ast.In) and _src_key(b) == "name",
         "unknown primitive type": lambda b: isinstance(b.ast.ops[0], ast.NotIn) and _src_key(b) == "type",
